@@ -8,6 +8,7 @@ package main
 
 import (
 	"fmt"
+	"go/ast"
 	"go/constant"
 	"go/types"
 	"sort"
@@ -53,6 +54,33 @@ func strMethods(p *Prog) []*ssa.Function {
 					}
 					out = append(out, f)
 				}
+			}
+		}
+	}
+	// exported package-level name lookups: func(enum, enum…) string (TagExifIfdString, TagSubIfdString, …)
+	for _, pk := range p.Lib {
+		sp := p.SSA.Package(pk.Types)
+		if sp == nil {
+			continue
+		}
+		for name, mem := range sp.Members {
+			f, ok := mem.(*ssa.Function)
+			if !ok || f.Blocks == nil || !ast.IsExported(name) || f.Signature.Recv() != nil {
+				continue
+			}
+			res := f.Signature.Results()
+			if res.Len() != 1 || !isStringType(res.At(0).Type()) || f.Signature.Params().Len() == 0 {
+				continue
+			}
+			allEnum := true
+			for i := 0; i < f.Signature.Params().Len(); i++ {
+				pt := f.Signature.Params().At(i).Type()
+				if _, isNamed := pt.(*types.Named); !isNamed || !isIntType(pt.Underlying()) {
+					allEnum = false
+				}
+			}
+			if allEnum {
+				out = append(out, f)
 			}
 		}
 	}
